@@ -462,11 +462,6 @@ Proof. intros W Hb Hi Hf. apply sim_unerr, g_ttheader_readKVInfo_sim; assumption
    Decode
    ===================================================================================== *)
 (* ---------- the transform-id loop: make([]uint8, n); for i < n { ids[i] = info[hdIdx]; hdIdx++ } ---------- *)
-Lemma index_lt {A} (l : list A) i x : index l i = Ok x -> i < len l.
-Proof.
-  unfold index. destruct (nth_error l (N.to_nat i)) eqn:E; [|discriminate]. intros _.
-  assert (nth_error l (N.to_nat i) <> None) as H by congruence. apply nth_error_Some in H. unfold len. lia.
-Qed.
 
 Lemma gstore_ok buf i x : i < len buf -> exists buf', gstore buf (Z.of_N i) x = Ok buf' /\ len buf' = len buf.
 Proof.
@@ -476,8 +471,6 @@ Proof.
   change (len [gbyte x]) with 1. lia.
 Qed.
 
-Lemma gindex_index b i : gindex b (Z.of_N i) = do x <- index b i; Ok (Z.of_N x).
-Proof. unfold gindex. destruct (Z.ltb_spec (Z.of_N i) 0); [lia|]. rewrite N2Z.id. reflexivity. Qed.
 
 Lemma tr_loop_sim (St : Type) (mN : St -> Z -> res (St * bytes * gerror)) fuel info nt :
   glen_ok info -> nt < 256 ->
@@ -593,14 +586,7 @@ Lemma meta_parts m0 m1 m2 m3 m4 m5 m6 m7 m8 m9 m10 m11 m12 m13 :
   gslice_range meta 12 14 = Ok [m12; m13].
 Proof. repeat split; reflexivity. Qed.
 
-Lemma index_wf (l : bytes) i x : wf l -> index l i = Ok x -> x < 256.
-Proof.
-  intros W. unfold index. destruct (nth_error l (N.to_nat i)) eqn:E; [|discriminate].
-  intros H. inversion H; subst. apply nth_error_In in E. unfold wf in W. rewrite Forall_forall in W. apply W, E.
-Qed.
 
-Lemma index_not_err {A} (l : list A) i e : index l i <> Err e.
-Proof. unfold index. destruct (nth_error l (N.to_nat i)); discriminate. Qed.
 
 Theorem g_ttheader_Decode_sim er b fuel :
   wf b -> glen_ok b -> (length b < fuel)%nat ->
